@@ -98,7 +98,19 @@ def all_subsets(xs):
     return out
 
 # stored witnesses (DESIGN.md par.7, C15) - always run first
+def unb(**kw):
+    d = {"op": "unbranched", "npoints": 4, "parent": 0, "frac": 4, "frac_int": False, "group": "dend_1", "conv": True,
+         "ty": "dendrite", "reorder": True, "optimise": True}
+    d.update(kw)
+    return d
+
+
 CORPUS = [
+    # whole branches put directly into a default group of their own type, and into "all"
+    {"init": "factory", "kind": "corpus:branches-in-default-groups",
+     "ops": [seg(), unb(group="dendrite_group"), unb(group="all", ty="axon", npoints=3, parent=1),
+             unb(group="soma_group", ty="soma", npoints=3, reorder=False, optimise=False),
+             unb(group="axon_group", ty="axon", npoints=5, parent=2, flag_form="numpy")] + PROPS3},
     # points with coordinates / diameters of extreme magnitude: a positive diameter must still be written as a positive number
     {"init": "factory", "kind": "corpus:tiny-and-huge-coordinates-and-diameters",
      "ops": [seg(pt={"x": "1e-16", "d": "1e-16"}), seg(parent=0, ty="dendrite", pt={"x": "-5e-324", "d": "5e-324"}),
